@@ -675,11 +675,12 @@ Definition handle_cancel_stage (s : state) (id i : nat) : hres :=
   end.
 
 (* ---- CompleteWorkflow ---- *)
-Definition all_upstream_complete (s : state) (st : stage) : bool :=
-  forallb (fun u => in_continuable (snd u)) (upstream s st).
+(* CompleteWorkflowHandler._can_still_start: the stage's own join rule says READY (no jump bypass) *)
+Definition can_still_start (s : state) (st : stage) : bool :=
+  match rr_phase (evaluate_readiness (rstage_of st) (upstream s st) false) with P_READY => true | _ => false end.
 
 Definition tl_view (s : state) : list tl_stage :=
-  map (fun st => (s_status st, all_upstream_complete s st)) (w_stages s).
+  map (fun st => (s_status st, can_still_start s st)) (w_stages s).
 
 Definition running_stages (s : state) : list nat :=
   filter (fun j => match get_stage s j with Some u => status_eqb (s_status u) RUNNING | None => false end)
